@@ -5,7 +5,10 @@ every function of the prophyc tool chain between `main` and `_write_file`
        os.path.abspath being allowed (used as a cache key only);
   (E2) lets no value of set type reach an order-sensitive consumer (iteration, list()/tuple()/join()/enumerate()/zip(), indexing
        by position, str()/repr(), unpacking); sets may be tested for membership, measured, grown, compared, or passed to sorted();
-  (E3) dict iteration is insertion-ordered (CPython >= 3.7) -- allowed.
+  (E3) dict iteration is insertion-ordered (CPython >= 3.7) -- allowed;
+  (E4) writes no state that is shared by the inputs of one run: no rebinding of a `global`, no store into / mutating method call on an
+       object bound to a module-level name (a module-level cache would make the output for one file depend on the files before it).
+       State kept on objects that live for the whole run (the parser, the file processor) is not covered by E4: see the stand-in.
 Under CPython's semantics (hash randomisation only affects set iteration order; dicts are insertion-ordered) this implies that the
 generated text is a function of the input files and options.  The check is an abstract interpretation of each function body over the
 two-point lattice {not-a-set, maybe-a-set} for local names, attributes and call results (intraprocedural; attribute / parameter
@@ -159,6 +162,52 @@ class FnCheck(ast.NodeVisitor):
         self.generic_visit(node)
 
 
+MUTATORS = {'append', 'extend', 'insert', 'pop', 'remove', 'clear', 'update', 'setdefault', 'add', 'discard', 'popitem', 'sort', 'reverse',
+            '__setitem__', '__delitem__'}
+
+
+def module_level_names(tree):
+    """names bound by module-level statements (assignments, imports excluded: modules and functions are not data)"""
+    out = set()
+    for s in tree.body:
+        targets = []
+        if isinstance(s, ast.Assign):
+            targets = s.targets
+        elif isinstance(s, (ast.AnnAssign, ast.AugAssign)):
+            targets = [s.target]
+        for t in targets:
+            for n in ast.walk(t):
+                if isinstance(n, ast.Name):
+                    out.add(n.id)
+    return out
+
+
+def global_writes(fn, mod_names):
+    """(E4) sites where a function body changes state that outlives the call and is shared by all inputs of a run: rebinding a
+    `global`, storing into / deleting from / calling a mutating method on an object bound to a module-level name (unless the
+    function rebinds that name locally)"""
+    local = set()
+    declared_global = set()
+    for n in ast.walk(fn):
+        if isinstance(n, ast.Global):
+            declared_global.update(n.names)
+    for n in ast.walk(fn):
+        if isinstance(n, ast.Name) and isinstance(n.ctx, ast.Store) and n.id not in declared_global:
+            local.add(n.id)
+        elif isinstance(n, ast.arg):
+            local.add(n.arg)
+    shared = lambda e: isinstance(e, ast.Name) and e.id in mod_names and e.id not in local
+    sites = []
+    for n in ast.walk(fn):
+        if isinstance(n, ast.Name) and isinstance(n.ctx, (ast.Store, ast.Del)) and n.id in declared_global:
+            sites.append('line %d: rebinds the global %s' % (n.lineno, n.id))
+        elif isinstance(n, (ast.Subscript, ast.Attribute)) and isinstance(n.ctx, (ast.Store, ast.Del)) and shared(n.value):
+            sites.append('line %d: stores into module-level %s' % (n.lineno, n.value.id))
+        elif isinstance(n, ast.Call) and isinstance(n.func, ast.Attribute) and n.func.attr in MUTATORS and shared(n.func.value):
+            sites.append('line %d: %s.%s() changes module-level state' % (n.lineno, n.func.value.id, n.func.attr))
+    return sites
+
+
 def functions_of(tree):
     out = []
 
@@ -205,6 +254,7 @@ def check_determinism(repo):
                                                                  type_ignores=[]))]:
             c = FnCheck(set_attrs, set_funcs)
             c.visit(fn)
+            shared_writes = global_writes(fn, module_level_names(tree)) if q != '<module>' else []
             seg = ast.get_source_segment(src, fn) if q != '<module>' else ''
             name = '%s:%s' % (rel.replace('/', '.')[:-3], q)
             obs = [{'name': name + '/effect.no-ambient-nondeterminism', 'kind': 'effect', 'line': getattr(fn, 'lineno', None),
@@ -212,7 +262,10 @@ def check_determinism(repo):
                     'model': {'sites': c.bad_effects} if c.bad_effects else None},
                    {'name': name + '/effect.no-set-order-reaches-output', 'kind': 'effect', 'line': getattr(fn, 'lineno', None),
                     'verdict': 'refuted' if c.bad_order else 'proved', 'backend': 'effect-check', 'time_s': 0.0,
-                    'model': {'sites': c.bad_order} if c.bad_order else None}]
+                    'model': {'sites': c.bad_order} if c.bad_order else None},
+                   {'name': name + '/effect.no-state-shared-between-inputs-is-written', 'kind': 'effect', 'line': getattr(fn, 'lineno', None),
+                    'verdict': 'refuted' if shared_writes else 'proved', 'backend': 'effect-check', 'time_s': 0.0,
+                    'model': {'sites': shared_writes} if shared_writes else None}]
             results.append({'contract': name, 'props': ['C20'], 'file': rel, 'qualname': q, 'line': getattr(fn, 'lineno', None),
                             'sha256': hashlib.sha256((seg or '').encode()).hexdigest(), 'status': 'ok', 'reason': None, 'obligations': obs,
                             'paths': 1, 'covers': {'requires': 'sat'}, 'solver_time': 0.0, 'wall': 0.0, 'trusted': [], 'notes': []})
